@@ -335,12 +335,12 @@ def validate_traces(wd, lines, tag):
     if r.finished:
         return True, None, r, tp
     if "TRACE-REJECTED" in r.out:
-        line = [x for x in r.out.splitlines() if "TRACE-REJECTED" in x][0]
-        try:
-            at = int(line.split("at event")[1].split(",")[1].strip().split()[0].strip(","))
-        except Exception:
-            at = None
-        return False, (at, line[:1500]), r, tp
+        import re
+        m = re.search(r'TRACE-REJECTED at event",\s*(\d+)', r.out)
+        at = int(m.group(1)) if m else None
+        i = r.out.index("TRACE-REJECTED")
+        line = " ".join(r.out[i:i + 1200].split())
+        return False, (at, line), r, tp
     print(r.out[-4000:])
     if r.invariant_violated:
         raise ToolError("DesegmenterTrace: model invariant %s violated while validating" % r.invariant_violated)
@@ -478,6 +478,12 @@ def run(tier, replay):
                Source("compacted", wd, 105, 85, 95, seed + 1).start()]
     if thorough:
         sources.append(Source("plain2", wd, 72 + seed % 7, 0, 60, seed + 2).start())
+    # with the cfg(grin_verif) hook Desegmenter::verif_set_segment_heights in the tree: several segments per tree
+    hook = vlib.harness(["segment", "e2e", "hook"]).stdout.strip() == "true"
+    if hook:
+        sources.append(Source("multi", wd, 64, 0, 54, seed + 3, heights="9,5,5,4").start())
+        if thorough:
+            sources.append(Source("multi_compacted", wd, 105, 85, 95, seed + 4, heights="9,4,4,5").start())
 
     # (M + A) component level
     t0 = time.time()
@@ -488,7 +494,7 @@ def run(tier, replay):
     if dep_accepted or not dep_rejected:
         raise ToolError("Segment.tla: depended-on corruptions accepted=%d rejected=%d" % (dep_accepted, dep_rejected))
     kinds_seen = sorted(set(k for (k, dep, v) in ops if dep))
-    for need in ("leaf_data", "leaf_pos", "omit_leaf", "hash", "drop_hash", "proof", "drop_proof"):
+    for need in ("leaf_data", "leaf_pos", "omit_leaf", "omit_pair", "hash", "drop_hash", "proof", "drop_proof"):
         if need not in kinds_seen:
             raise ToolError("Segment.tla: corruption kind %s never applied to a depended-on element" % need)
 
@@ -561,7 +567,7 @@ def run(tier, replay):
                               "actions": {k: v[0] for k, v in ac.items()}, "mutant_model_violates": True},
         "e2e": {"sources": src_info, "scenarios": cov["scenarios"], "finalised_equal_to_twin": cov["finalised"],
                 "deliveries_by_kind_verdict": cov["deliveries"], "trace_events_validated": cov["trace_events"],
-                "selftests": st},
+                "selftests": st, "segment_height_hook_present": hook},
         "checker_cmd": "tlc mc/MC_Segment; tlc mc/MC_Desegmenter; tlc trace/DesegmenterTrace",
     }
     rep.assumptions = [
